@@ -414,7 +414,9 @@ func (enc *jsonEncoder) EncodeEntry(ent Entry, fields []Field) (*buffer.Buffer, 
 		if final.CallerKey != "" {
 			final.addKey(final.CallerKey)
 			cur := final.buf.Len()
-			final.EncodeCaller(ent.Caller, final)
+			if e := final.EncodeCaller; e != nil {
+				e(ent.Caller, final)
+			}
 			if cur == final.buf.Len() {
 				// User-supplied EncodeCaller was a no-op. Fall back to strings to
 				// keep output JSON valid.
